@@ -26,6 +26,9 @@ CONFIGS = [
 ]
 
 
+HISTORY: List[Any] = []  # (tokens, template) pairs already exercised in this process, in order
+
+
 def structure_obligation(tokens: Dict[str, str], template: str) -> Obligation:
     def run() -> Dict[str, Any]:
         import importlib
@@ -35,7 +38,16 @@ def structure_obligation(tokens: Dict[str, str], template: str) -> Obligation:
         from vlib import hs
 
         h = importlib.import_module("harness.c17")
-        rep = {"harness": H, "fn": "structure", "params": {}, "call": f"structure({tokens!r}, {template!r})"}
+        # replay = the same sequence of environments in a fresh process (one earlier use per distinct assignment)
+        seen, hist = set(), []
+        for tk, tp in HISTORY:
+            key = repr(sorted(tk.items()))
+            if key not in seen and tk != tokens:
+                seen.add(key)
+                hist.append([tk, tp])
+        hist.append([tokens, template])
+        rep = {"harness": H, "fn": "structure_history", "params": {}, "call": f"structure_history({hist!r})"}
+        HISTORY.append((tokens, template))
         del hs.WHY[:]
         try:
             okay = h.structure(tokens, template)
